@@ -214,11 +214,28 @@ fn c11_insert<T: Elem + Clone + Ord + Default>(ctx: &mut Ctx, shape: (usize, usi
                 };
                 enumerate_faults(ctx, &FaultOp { opn, desc: format!("{}(idx={}, len={}) on {}x{} {}", opn, idx, len, c, r, T::NAME), run: &run, kinds: &kinds });
                 // lying iterators (no injected panic needed; combined with injected ones as well)
-                for lie in [LenLie::Plus(1), LenLie::Plus(3), LenLie::Minus(1), LenLie::Fixed(0), LenLie::Fixed(usize::MAX), LenLie::Fixed(usize::MAX / 2 + 1), LenLie::Flicker] {
-                    if big && !matches!(lie, LenLie::Plus(1) | LenLie::Minus(1)) {
-                        continue;
-                    }
-                    let real_len = if c == 0 { len.max(1) } else { line };
+                // (real number of items, what len() claims): claims that disagree with the array's line
+                // length are rejected up front; claims that AGREE with it while the iterator holds fewer
+                // (runs dry mid-row) or more items (debug: exhaustion assertion) get past that check
+                let base_len = if c == 0 { len.max(1) } else { line };
+                let mut lies: Vec<(usize, LenLie)> = vec![
+                    (base_len, LenLie::Plus(1)),
+                    (base_len, LenLie::Plus(3)),
+                    (base_len, LenLie::Minus(1)),
+                    (base_len, LenLie::Fixed(0)),
+                    (base_len, LenLie::Fixed(usize::MAX)),
+                    (base_len, LenLie::Fixed(usize::MAX / 2 + 1)),
+                    (base_len, LenLie::Flicker),
+                    (base_len.saturating_sub(1), LenLie::Plus(1)),
+                    (0, LenLie::Fixed(base_len)),
+                    (base_len / 2, LenLie::Fixed(base_len)),
+                    (base_len + 1, LenLie::Minus(1)),
+                    (base_len + 2, LenLie::Fixed(base_len)),
+                ];
+                if big {
+                    lies.retain(|(rl, l)| matches!(l, LenLie::Plus(1) | LenLie::Minus(1)) || (*rl == 0));
+                }
+                for (real_len, lie) in lies {
                     let run = |_ctx: &mut Ctx| {
                         let (mut a, _g) = build::<T>(c, r, &key_of);
                         let items = toks::<T>(real_len, 30);
